@@ -194,7 +194,8 @@ def _bundle_binding(facts, st, h, effect_blocks):
     pv = prov_of(h)
     msgs = []
     for bi, t in h.calls():
-        if (callee_path(t) or "") != "util::shared::verify_position_bundle_authority":
+        # the bundle helper "uses the same logic": it forwards to verify_position_authority (R2 forwards@); calling that directly is the same
+        if (callee_path(t) or "") not in ("util::shared::verify_position_bundle_authority", "util::shared::verify_position_authority"):
             continue
         args = [pv.operand(a, bi, len(h.blocks[bi]["s"])) for a in t["a"]]
         ta, s = _acc_ref(args[0]), _acc_ref(args[1])
@@ -214,7 +215,7 @@ def _bundle_binding(facts, st, h, effect_blocks):
         if any(not cfg.dominates(h, bi, e) for e in effect_blocks):
             msgs.append("does not dominate the bundle effect")
             continue
-        return True, "verify_position_bundle_authority(ctx.accounts.%s, Signer %s)? dominates the effect" % (ta, s)
+        return True, "%s(ctx.accounts.%s, Signer %s)? dominates the effect" % (callee_path(t).rsplit("::", 1)[-1], ta, s)
     return False, "; ".join(msgs) or "no call to verify_position_bundle_authority"
 
 
@@ -469,6 +470,10 @@ def R2_authority_helpers(run):
                            ("util::shared::verify_position_authority_interface", "util::shared::validate_owner"),
                            ("pinocchio::ported::util_shared::pino_verify_position_authority", "pinocchio::ported::util_shared::pino_validate_owner"),
                            ("util::shared::verify_position_bundle_authority", "util::shared::validate_owner")):
+        if path not in verified and facts.fn(path) is None:
+            # the forwarding wrapper is gone: R1 demands one of the verified helpers directly in the bundle handlers
+            run.ok("R2", "forwards@" + path, detail="wrapper no longer exists; bundle handlers are held to the verified helpers directly (R1)")
+            continue
         fn = facts.need_fn(path)
         run.touch(fn)
         pv = prov_of(fn)
